@@ -17,16 +17,16 @@ THEOREMS = {
     'C11_part_omitted_when_empty': 'a part whose name part (first+middle / von / last / jr) is empty contributes nothing, not even pre/post text or a tie',
     'C11_part_omitted_iff_empty': '... and only then, as soon as the part has a pre-text, a post-text or (in full form) a non-empty token',
     'C11_part_omitted_iff_empty_full': 'for a person made from a name string (tokens never empty) a part shown in full is omitted iff its name part is empty',
-    'C11_full_vs_abbrev': 'ff shows the token, f its hyphen-aware abbreviation (first letter or special character of each hyphen-separated piece joined by ".-" or the explicit separator)',
-    'C11_explicit_separator': 'an explicit separator is a plain join of the shown (full or abbreviated) tokens',
-    'C11_default_separator': 'default separator: one token as is; two tokens a tie; three or more: tie after the first token iff its text length < 3 else space, spaces between the middle tokens, tie before the last; ".~"/". " when abbreviating',
+    'C11_full_vs_abbrev': 'name part with EXACTLY ONE token, post-text not ending in a tie directive "~" (ties: C11_discretionary_tie; more tokens: C11_full_vs_abbrev_tokens): ff gives pre + token + post, f gives pre + abbreviation + post, abbreviation relative to Spec.NameFormat.abbreviate (close to the model; independent for brace-free pieces: C11_hyphen_abbreviation)',
+    'C11_explicit_separator': 'for a non-empty name part and a post-text that does not end in a tie directive "~" (ties: C11_discretionary_tie): an explicit separator is a plain join of the shown (full or abbreviated) tokens between pre- and post-text',
+    'C11_default_separator': 'for a non-empty name part and a post-text that does not end in a tie directive "~" (ties: C11_discretionary_tie) -- default separator: one token as is; two tokens a tie; three or more: tie after the first token iff its text length < 3 else space, spaces between the middle tokens, tie before the last; ".~"/". " when abbreviating',
     'C11_discretionary_tie': 'a single trailing ~ on the post-text adds a tie iff the text length of the formatted part is < 3, else a blank; ~~ always adds a tie; errors unchanged',
     'C11_discretionary_tie_no_letters': 'a part without letters: its text acts as post-text, with the same tie directives',
     'C11_compositional': 'a well-formed part written in front of ANY format string (well-formed or not) contributes the rule for that part alone (Spec.formatPart) in front of what the rest yields; an error of the rest stays that error: with C11_level0_verbatim, level-0 text and parts at any position follow part by part, without the reference parser',
-    'C11_hyphen_abbreviation': 'hyphen-aware abbreviation at property level: a token written as hyphen-joined pieces (free of hyphens and braces, possibly empty: Jean--Pierre, -Jean) abbreviates to the first letters of its pieces in order, joined by ".-" or the explicit separator; pieces without a letter are skipped',
-    'C11_full_vs_abbrev_tokens': 'full versus abbreviated form for ANY number of tokens: f is ff with every token replaced by its own abbreviation and, with the default separator, a period in front of every tie and blank; with an explicit separator only the shown tokens differ',
+    'C11_hyphen_abbreviation': 'hyphen-aware abbreviation, independent of the model (own "initial" = first str.isalpha character): a token of hyphen-joined pieces FREE OF HYPHENS AND BRACES (possibly empty) abbreviates to the first letters of its pieces in order, joined by ".-" or the explicit separator, letterless pieces skipped (with braces / special characters: only relative to Spec.NameFormat.abbreviate)',
+    'C11_full_vs_abbrev_tokens': 'ANY positive number of tokens, post-text not ending in a tie directive "~" (ties: C11_discretionary_tie): f is ff with every token replaced by its own abbreviation (relative to Spec.NameFormat.abbreviate) and, with the default separator, a period in front of every tie and blank; with an explicit separator only the shown tokens differ',
     'C11_letter_run_lowercasing': 'check_format_chars lower-cases the letter run with str.lower(); the model uses the ASCII lower-casing: both accept exactly the same runs (no character outside ASCII is mapped to f, l, v or j: kernel evaluation over the interpreter\'s regenerated str.lower table), and these are the runs the reference grammar decodes',
-    'C11_nth_name': 'the n-th name of a name list: on names written with " and " between them (each balanced, without level-0 " and ", stripped) the format.name$ built-in with number k+1 formats exactly the k-th name with format_name; a number outside 1..count gives the no-such-name outcome; the built-in never ends in an internal error',
+    'C11_nth_name': 'n-th name: for names joined by " and " (each balanced, no level-0 " and ", stripped) format.name$ with number k+1 formats exactly the k-th name with format_name; a number outside 1..count gives no-such-name ([model wiring]: first test of the model of the repaired built-in, fix a9f9a7a; carried by the correspondence check); never an internal error',
 }
 RULE = ('names: the fixed sample, the names of the C04 generator of the same tier (a fixed stride of them, one key format each), the C04 token shapes '
         '(<= 2 tokens over all ASCII and non-ASCII token classes, 3 tokens over a reduced class set, comma forms) x 16 key formats, the C04 Unicode '
@@ -504,7 +504,15 @@ LEVEL_NOTE = ('Trusted: Lean kernel; axioms propext/Classical.choice/Quot.sound 
               'Model/NameFormatChars.lean, Model/Names.lean, Model/TeXString.lean) corresponds to pybtex/bibtex/names.py only as far as the '
               'differential check explores; the character classes of the format grammar (\\w, \\d) and of the first letter of a token (isalpha) are '
               'the running interpreter\'s tables, regenerated on every run; the reference builds on the C04 split of a name (mkPerson) and the C12 '
-              'primitives (scan, bibtex_len, split_tex_string on "-"), it does not re-specify them; fidelity of the reference rule to the BibTeX '
+              'primitives (scan, bibtex_len, split_tex_string on "-"), it does not re-specify them; in particular the reference abbreviation '
+              '(Spec.NameFormat.abbreviate / firstLetter) is a near-transcription of the model\'s bibtex_abbreviate / bibtex_first_letter '
+              '(same split at "-", scan, filter and join; find? instead of explicit recursion), so for tokens WITH braces or special '
+              'characters C11_matches_spec says little that is independent about the "first letter or special character" rule -- the '
+              'independent statements are C11_hyphen_abbreviation (brace-free pieces, own "initial") and, for the primitives, '
+              'C12_first_letter_spec / C12_split_leftmost; the clause-by-clause theorems C11_full_vs_abbrev, C11_explicit_separator, '
+              'C11_default_separator, C11_full_vs_abbrev_tokens are about ONE part (formatPart) with a post-text that does not end in a tie '
+              'directive (C11_discretionary_tie covers the directives, C11_compositional / C11_level0_verbatim lift parts to format '
+              'strings); fidelity of the reference rule to the BibTeX '
               'program itself is by reading (no BibTeX binary or bibtex.web in this environment). Two points of the rule could NOT be checked '
               'against BibTeX and are recorded as unverified: (1) BibTeX\'s enough_text_chars for the tie after the first token may count from the '
               'start of the part (pre-text and the period of an abbreviation included) whereas code and reference count the first token alone -- '
